@@ -39,6 +39,21 @@ CLAIMED = {
             "Trusts: Coq kernel; extraction + OCaml driver; rt/rt.c + gcc TSan instrumentation; SC interleaving; -O0 build; callers follow "
             "the documented protocol (encoded in the thread programs); pushed items distinct and not the stub; counters below 2^63.",
             "DESIGN.md 6 C17"),
+    "C02": ("Coq invariants + ghost histories over three layered models (Chase-Lev deque SC + x86-TSO, scheduler, runtime protocol "
+            "machine); lock-step trace correspondence (deque, scheduler) and trace acceptance by the extracted protocol machine (whole runtime)",
+            "Deque layer: machine-checked theorems over every reachable state of an access-granularity model of work_stealing_deque.c "
+            "(one owner, any number of thieves, any programs, any schedule, any number of growths): every returned token was pushed and "
+            "none is returned twice, nothing is lost (content = pushed minus returned), steal FIFO / pop LIFO, EMPTY/ABORT justified, "
+            "growth preserves content; the same exactly-once/no-loss on an x86-TSO store-buffer machine, with the release-store variant "
+            "of pop_bottom refuted by witness. Scheduler layer (when Properties_C10.v is present): conservation over atomic deques. "
+            "Runtime layer (when Properties_C01.v is present): a fiber is never queued twice per wake-up in the protocol machine. Tie: "
+            "per-access lock-step for the deque and the scheduler sources; for the whole runtime, the protocol events of real executions "
+            "under a deterministic scheduler are accepted by the extracted machine and checked by a conservation monitor (every schedule "
+            "followed by exactly one hand-out, nothing queued when all kernel threads idle).",
+            "Trusts: Coq kernel; extraction + driver; rt/ runtimes and the guarded event hooks; SC interleaving for the lock-step (the "
+            "TSO model is proved but not trace-tied); layering assumptions listed in evidence.assumptions; evidence.coverage."
+            "theorem_layers_included says which theorem files this run covered.",
+            "DESIGN.md 6 C02"),
 }
 
 NOT_YET = "model and proof not built yet in this development (see DESIGN.md 6 for the plan); not claimed until a check exists"
